@@ -29,7 +29,9 @@ contract(
     ensures=["result == True", "t.sent == []", "d._session == session"], props=["C10"])
 
 # ---- a connected operation from "session registered, no connection": large Forward Open, then standard with 500
-OPENED = SETUP + ["d._sock = t", "d._connection_opened = True", "d._session = session"]
+OPENED = SETUP + ["d._sock = t", "d._connection_opened = True", "d._session = session",
+                  "route_before = pycomm3.cip.data_types.PADDED_EPATH.encode(d._cfg['cip_path'], length=True, pad_length=True)",
+                  "fo_path = spec.epath.route_bytes_with_router([(1, b'\\x02')])"]
 for _policy, _replies, _kinds in (
         ("large_ok", "[spec.env.forward_open_reply(True, 0, cid), spec.msgrouter.connected_reply(0x0e, 0, b'ok')]", "['fo-large', 'connected']"),
         ("large_refused", "[spec.env.forward_open_reply(True, 1), spec.env.forward_open_reply(False, 0, cid), spec.msgrouter.connected_reply(0x0e, 0, b'ok')]",
@@ -44,7 +46,10 @@ for _policy, _replies, _kinds in (
                  "all(spec.encap.try_parse_frame(f)[1] == session for f in t.sent)",
                  "spec.encap.try_parse_frame(t.sent[-1])[3][1] == cid",      # every connection id the target may grant, 0 included
                  # the size the target enforces (asked for in the accepted Forward Open) is the size the driver plans with
-                 "spec.env.forward_open_size(t.sent[-2]) == d.connection_size"],
+                 "spec.env.forward_open_size(t.sent[-2]) == d.connection_size",
+                 # every Forward Open carries the driver's route followed by the message router -- the first, the fall-back one, any later one
+                 "all(spec.env.forward_open_path(f) == fo_path for f in t.sent[:-1])",
+                 "pycomm3.cip.data_types.PADDED_EPATH.encode(d._cfg['cip_path'], length=True, pad_length=True) == route_before"],
         raises_only=LIB,
         ensures_exc=[("fail_at is not None" if _policy != "all_refused" else "True"),
                      "implies('connected' in spec.env.frame_kinds(t.sent), d._target_is_connected)",
@@ -110,3 +115,21 @@ for _state, _init in (("fresh", []), ("closed", ["d._sock = t", "d._connection_o
         call="d.generic_message(service=0x0e, class_code=1, instance=1, attribute=1, connected=False)",
         params={}, setup=["replies = [b'']", "fail_at = None"] + SETUP + _init + ["before = len(t.sent)"],
         ensures=["not bool(result)"], raises_only=LIB, ensures_exc=["len(t.sent) == before"], props=["C10"])
+
+# re-open after a fall-back and a close: the standard Forward Open still asks for the size the driver then plans with
+contract(
+    id="lifecycle.reopen.fell_back", func="pycomm3.cip_driver.CIPDriver.generic_message",
+    call="d.generic_message(service=0x0e, class_code=1, instance=1, attribute=1, connected=True)",
+    params={"session": P.int(1, 0xFFFFFFFF), "session2": P.int(1, 0xFFFFFFFF), "cid": P.bytes(len=4), "cid2": P.bytes(len=4)},
+    setup=["replies = [spec.env.register_reply(session), spec.env.forward_open_reply(True, 1), spec.env.forward_open_reply(False, 0, cid), "
+           "spec.msgrouter.connected_reply(0x0e, 0, b'one'), spec.env.forward_close_reply(0), "
+           "spec.env.register_reply(session2), spec.env.forward_open_reply(False, 0, cid2), spec.msgrouter.connected_reply(0x0e, 0, b'two')]",
+           "fail_at = None"] + SETUP +
+          ["opened = d.open()", "first = d.generic_message(service=0x0e, class_code=1, instance=1, attribute=1, connected=True)", "closed = d.close()",
+           "reopened = d.open()", "mark = len(t.sent)"],
+    ensures=["result.value == b'two'", "first.value == b'one'",
+             "spec.env.frame_kinds(t.sent) == ['register', 'fo-large', 'fo-standard', 'connected', 'fclose', 'unregister', 'register', 'fo-standard', 'connected']",
+             "spec.env.forward_open_size(t.sent[7]) == d.connection_size", "d.connection_size == 500",
+             "spec.env.forward_open_path(t.sent[7]) == spec.env.forward_open_path(t.sent[2])",
+             "spec.encap.try_parse_frame(t.sent[8])[3][1] == cid2 and spec.encap.try_parse_frame(t.sent[8])[1] == session2"],
+    props=["C10", "C04", "C11", "C15"], max_paths=20000)
